@@ -135,6 +135,8 @@ Definition uses_lag (tr : transform) : bool :=
   match tr with TNone | TLog => false | _ => true end.
 Lemma shift_negative tr : uses_lag tr = true -> (lhs_of_level_shift tr < 0)%Z.
 Proof. destruct tr; cbn; intros H; try discriminate; reflexivity. Qed.
+Lemma lag_is_previous_period tr : uses_lag tr = true -> lhs_of_level_shift tr = (-1)%Z.
+Proof. destruct tr; cbn; intros H; try discriminate; reflexivity. Qed.
 Lemma lag_ignored tr x l l' : uses_lag tr = false -> lhs_of_level A tr x l = lhs_of_level A tr x l'.
 Proof. destruct tr; cbn; intros H; try discriminate; reflexivity. Qed.
 Lemma lag_ignored_level tr x l l' : uses_lag tr = false -> lhs_level A tr x l = lhs_level A tr x l'.
@@ -468,6 +470,230 @@ Proof.
   unfold at_ in Hf; cbn [fst snd] in Hf. rewrite Hf.
   - now apply step_exogenized_value.
   - intros s' Hs' Hw. apply (Hs s' Hs' _ Hw). apply in_or_app. left. now left.
+Qed.
+
+(* ---------- 6. the two execution orders ---------- *)
+
+(* tokens (row, shift) a step at period t depends on *)
+Definition tokens (pl : plan) (t : Z) (e : eqn) : list (nat * Z) :=
+  ((e_lhs e, 0%Z) :: (e_lhs e, lhs_of_level_shift (e_tr e))
+     :: match e_res e with Some r => [(r, 0%Z)] | None => [] end ++ vars A (e_rhs e))
+  ++ match get_transform A pl e t with
+     | None => []
+     | Some pp => (e_lhs e, p_shift pp) :: match p_row pp with Some r => [(r, 0%Z)] | None => [] end
+     end.
+
+(* rows an equation writes *)
+Definition wrows (e : eqn) : list nat := e_lhs e :: match e_res e with Some r => [r] | None => [] end.
+
+Lemma deps_tokens pl t e c :
+  In c (deps pl (t, e)) -> exists r s, In (r, s) (tokens pl t e) /\ c = (r, (t + s)%Z).
+Proof.
+  unfold deps, tokens, eq_cells, plan_cells, res_cell, cells_of. intros H.
+  apply in_app_or in H as [H|H].
+  - destruct H as [<-|[<-|H]].
+    + exists (e_lhs e), 0%Z. split; [apply in_or_app; left; now left | f_equal; lia].
+    + exists (e_lhs e), (lhs_of_level_shift (e_tr e)). split; [apply in_or_app; left; right; now left | reflexivity].
+    + apply in_app_or in H as [H|H].
+      * destruct (e_res e) as [r|]; [|contradiction]. destruct H as [<-|[]].
+        exists r, 0%Z. split; [|f_equal; lia]. apply in_or_app; left. right; right. apply in_or_app; left. now left.
+      * apply in_map_iff in H as [[r s] [<- H]]. exists r, s. split; [|reflexivity].
+        apply in_or_app; left. right; right. apply in_or_app. now right.
+  - destruct (get_transform A pl e t) as [pp|]; [|contradiction]. destruct H as [<-|H].
+    + exists (e_lhs e), (p_shift pp). split; [apply in_or_app; right; now left | reflexivity].
+    + destruct (p_row pp) as [r|]; [|contradiction]. destruct H as [<-|[]].
+      exists r, 0%Z. split; [apply in_or_app; right; right; now left | f_equal; lia].
+Qed.
+
+Lemma writes_wrows t e c : In c (writes (t, e)) -> exists r, In r (wrows e) /\ c = (r, t).
+Proof.
+  unfold writes, wrows, res_cell; cbn [fst snd]. intros [<-|H].
+  - exists (e_lhs e). split; [now left | reflexivity].
+  - destruct (e_res e) as [r|]; [|contradiction]. destruct H as [<-|[]]. exists r. split; [right; now left | reflexivity].
+Qed.
+
+(* a later step (t', e') does not disturb an earlier one (t, e) unless some token of e at shift t'-t is a row e' writes *)
+Lemma undisturbed pl t e t' e' :
+  (forall r s, In (r, s) (tokens pl t e) -> In r (wrows e') -> (t + s)%Z <> t') ->
+  forall c, In c (writes (t', e')) -> ~ In c (deps pl (t, e)).
+Proof.
+  intros H c Hw Hd. apply writes_wrows in Hw as [w [Hw ->]].
+  apply deps_tokens in Hd as [r [s [Htok E]]]. injection E as -> E. exact (H _ _ Htok Hw (eq_sym E)).
+Qed.
+
+Definition increasing (cols : list Z) : Prop := ordpairs Z.lt cols.
+
+(* no equation reads a lead of a row that some equation writes *)
+Definition no_endogenous_leads (pl : plan) (cols : list Z) (eqs : list eqn) : Prop :=
+  forall t e e' r s, In t cols -> In e eqs -> In e' eqs ->
+    In (r, s) (tokens pl t e) -> In r (wrows e') -> (s <= 0)%Z.
+
+(* sequentially ordered: an equation reads rows written by LATER equations only at strictly negative shifts
+   (in particular all written rows are pairwise different) *)
+Definition sequentially_ordered (pl : plan) (cols : list Z) (eqs : list eqn) : Prop :=
+  ordpairs (fun e e' => forall t r s, In t cols -> In (r, s) (tokens pl t e) -> In r (wrows e') -> (s < 0)%Z) eqs.
+
+Lemma in_steps_de cols eqs (t : Z) (e : eqn) :
+  In (t, e) (steps_dates_equations A cols eqs) <-> In t cols /\ In e eqs.
+Proof.
+  unfold steps_dates_equations. rewrite in_flat_map. split.
+  - intros [t' [Ht H]]. apply in_map_iff in H as [e' [E He]]. injection E as -> ->. now split.
+  - intros [Ht He]. exists t. split; [exact Ht|]. apply in_map_iff. now exists e.
+Qed.
+Lemma in_steps_ed cols eqs (t : Z) (e : eqn) :
+  In (t, e) (steps_equations_dates A cols eqs) <-> In t cols /\ In e eqs.
+Proof.
+  unfold steps_equations_dates. rewrite in_flat_map. split.
+  - intros [e' [He H]]. apply in_map_iff in H as [t' [E Ht]]. injection E as -> ->. now split.
+  - intros [Ht He]. exists e. split; [exact He|]. apply in_map_iff. now exists t.
+Qed.
+
+Theorem rbw_dates_equations pl cols eqs :
+  increasing cols -> no_endogenous_leads pl cols eqs -> sequentially_ordered pl cols eqs ->
+  rbw pl (steps_dates_equations A cols eqs).
+Proof.
+  intros Hinc Hlead Hseq. unfold rbw, steps_dates_equations. apply ordpairs_flat_map.
+  - intros t Ht. apply ordpairs_map. revert Hseq. apply ordpairs_weaken.
+    intros e e' He He' H. apply undisturbed. intros r s Htok Hw E.
+    specialize (H t r s Ht Htok Hw). lia.
+  - revert Hinc. apply ordpairs_weaken. intros t t' Ht Ht' Hlt a b Ha Hb.
+    apply in_map_iff in Ha as [e [<- He]]. apply in_map_iff in Hb as [e' [<- He']].
+    apply undisturbed. intros r s Htok Hw E. specialize (Hlead t e e' r s Ht He He' Htok Hw). lia.
+Qed.
+
+(* equations_dates: an equation reads its own rows at non-positive shifts only, and no row of a later equation *)
+Definition no_own_leads (pl : plan) (cols : list Z) (eqs : list eqn) : Prop :=
+  forall t e r s, In t cols -> In e eqs -> In (r, s) (tokens pl t e) -> In r (wrows e) -> (s <= 0)%Z.
+Definition reads_only_earlier (pl : plan) (cols : list Z) (eqs : list eqn) : Prop :=
+  ordpairs (fun e e' => forall t r s, In t cols -> In (r, s) (tokens pl t e) -> ~ In r (wrows e')) eqs.
+
+Theorem rbw_equations_dates pl cols eqs :
+  increasing cols -> no_own_leads pl cols eqs -> reads_only_earlier pl cols eqs ->
+  rbw pl (steps_equations_dates A cols eqs).
+Proof.
+  intros Hinc Hown Hearlier. unfold rbw, steps_equations_dates. apply ordpairs_flat_map.
+  - intros e He. apply ordpairs_map. revert Hinc. apply ordpairs_weaken.
+    intros t t' Ht Ht' Hlt. apply undisturbed. intros r s Htok Hw E.
+    specialize (Hown t e r s Ht He Htok Hw). lia.
+  - revert Hearlier. apply ordpairs_weaken. intros e e' He He' H a b Ha Hb.
+    apply in_map_iff in Ha as [t [<- Ht]]. apply in_map_iff in Hb as [t' [<- Ht']].
+    apply undisturbed. intros r s Htok Hw _. exact (H t r s Ht Htok Hw).
+Qed.
+
+(* THE PROPERTY for execution_order="dates_equations" *)
+Theorem simulate_dates_equations_correct pl cols eqs (d0 : data) :
+  increasing cols -> (forall e, In e eqs -> eqn_ok e) ->
+  no_endogenous_leads pl cols eqs -> sequentially_ordered pl cols eqs ->
+  let dN := simulate_model A pl DatesEquations cols eqs d0 in
+  (forall t e, In t cols -> In e eqs -> dom_ok pl (t, e) dN) ->
+  forall t e, In t cols -> In e eqs -> holds e t dN.
+Proof.
+  intros Hinc Hok Hlead Hseq dN Hdom t e Ht He. unfold dN, simulate_model, steps_of.
+  apply fold_invariant.
+  - now apply rbw_dates_equations.
+  - intros [t' e'] H. apply in_steps_de in H as [_ H]. now apply eqn_ok_step_ok, Hok.
+  - intros [t' e'] H. apply in_steps_de in H as [H1 H2]. now apply Hdom.
+  - now apply in_steps_de.
+Qed.
+
+(* THE PROPERTY for execution_order="equations_dates" *)
+Theorem simulate_equations_dates_correct pl cols eqs (d0 : data) :
+  increasing cols -> (forall e, In e eqs -> eqn_ok e) ->
+  no_own_leads pl cols eqs -> reads_only_earlier pl cols eqs ->
+  let dN := simulate_model A pl EquationsDates cols eqs d0 in
+  (forall t e, In t cols -> In e eqs -> dom_ok pl (t, e) dN) ->
+  forall t e, In t cols -> In e eqs -> holds e t dN.
+Proof.
+  intros Hinc Hok Hown Hearlier dN Hdom t e Ht He. unfold dN, simulate_model, steps_of.
+  apply fold_invariant.
+  - now apply rbw_equations_dates.
+  - intros [t' e'] H. apply in_steps_ed in H as [_ H]. now apply eqn_ok_step_ok, Hok.
+  - intros [t' e'] H. apply in_steps_ed in H as [H1 H2]. now apply Hdom.
+  - now apply in_steps_ed.
+Qed.
+
+(* ---------- 7. the defect repaired by fixes/C17_1.patch, kept as a lemma about the OLD code ---------- *)
+
+(* Explanatory.exogenize as it was: the residual body is evaluated while the residual cell still holds the
+   input residual, which the RHS string includes *)
+Definition exogenize_unrepaired (e : eqn) (t : Z) (v : R) (d : data) : data :=
+  let d := set_lhs A e t d v in
+  let d := set_res A e t d (eval_residual A e t d) in
+  d.
+
+(* it leaves the equation violated by exactly the input residual *)
+Lemma exogenize_unrepaired_gap (e : eqn) t v (d : data) r :
+  e_res e = Some r -> r <> e_lhs e -> ~ In (r, t) (cells_of (e_rhs e) t) ->
+  let d' := exogenize_unrepaired e t v d in
+  lhs_value A e t d' = rhs_total A e t d' + d r t.
+Proof.
+  intros Hres Hne Hrhs d'. subst d'. unfold exogenize_unrepaired, set_lhs, set_res, eval_residual, lhs_value, rhs_total.
+  rewrite Hres.
+  repeat rewrite (eval_upd _ _ _ r t) by exact Hrhs.
+  repeat (rewrite upd_same || rewrite (upd_other _ r t) by (intros E; injection E as E; auto; lia)).
+  rewrite (upd_other _ (e_lhs e) t v r t) by (intros E; injection E as E; auto).
+  gen_unfold. ring.
+Qed.
+
+Lemma exogenize_unrepaired_refuted :
+  exists (e : eqn) t v (d : data) r,
+    e_res e = Some r /\ r <> e_lhs e /\ ~ In (r, t) (cells_of (e_rhs e) t) /\
+    ~ holds e t (exogenize_unrepaired e t v d).
+Proof.
+  (* x = 0.5*x[-1] + res, x exogenized to 2, initial condition 1, input residual 0.25 *)
+  set (e := mkEqn A 0%nat TNone (EMul A (ECst A (1/2)) (EVar A 0%nat (-1)%Z)) (Some 1%nat)).
+  exists e, 0%Z, 2, (fun r _ => match r with O => 1 | _ => 1/4 end), 1%nat.
+  assert (Hrhs : ~ In (1%nat, 0%Z) (cells_of (e_rhs e) 0)).
+  { cbn. intros [E|[]]. discriminate. }
+  repeat split; [discriminate | exact Hrhs |].
+  intros H. unfold holds in H.
+  rewrite (exogenize_unrepaired_gap e 0%Z 2 _ 1%nat eq_refl) in H; [lra | discriminate | exact Hrhs].
+Qed.
+
+(* ---------- 8. non-vacuity: a concrete model meets every hypothesis of both order theorems ---------- *)
+(* rows: 0 = y0, 1 = y1, 2 = z, 3 = res_y0, 4 = res_y1, 5 = diff_y0 (plan series), 6 = q
+     y0 = 0.5*y0[-1] + z ;  diff(y1) = 0.1*y0 + y1[-1] ;  q === y0 + y1
+   plan: y0 exogenized through its first difference at period 1 *)
+Definition ex_eqs : list eqn :=
+  [ mkEqn A 0%nat TNone (EAdd A (EMul A (ECst A (1/2)) (EVar A 0%nat (-1)%Z)) (EVar A 2%nat 0%Z)) (Some 3%nat);
+    mkEqn A 1%nat TDiff (EAdd A (EMul A (ECst A (1/10)) (EVar A 0%nat 0%Z)) (EVar A 1%nat (-1)%Z)) (Some 4%nat);
+    mkEqn A 6%nat TNone (EAdd A (EVar A 0%nat 0%Z) (EVar A 1%nat 0%Z)) None ].
+Definition ex_plan : plan := plan_of_list [((0%nat, 1%Z), mkPP PDiff false (-1)%Z (Some 5%nat))].
+Definition ex_cols : list Z := [0; 1; 2]%Z.
+
+Ltac in_cases :=
+  repeat match goal with
+         | H : In _ (_ :: _) |- _ => destruct H as [H|H]
+         | H : In _ [] |- _ => destruct H
+         | H : _ \/ _ |- _ => destruct H as [H|H]
+         | H : False |- _ => destruct H
+         | H : (_, _) = (_, _) |- _ => injection H as ? ?
+         | H : Some _ = Some _ |- _ => injection H as ?
+         end.
+Ltac fin := intros; in_cases; subst; try lia; try congruence; try discriminate.
+
+Lemma hypotheses_satisfiable :
+  increasing ex_cols /\ (forall e, In e ex_eqs -> eqn_ok e) /\
+  no_endogenous_leads ex_plan ex_cols ex_eqs /\ sequentially_ordered ex_plan ex_cols ex_eqs /\
+  no_own_leads ex_plan ex_cols ex_eqs /\ reads_only_earlier ex_plan ex_cols ex_eqs /\
+  (forall (d : data) t e, In t ex_cols -> In e ex_eqs -> dom_ok ex_plan (t, e) d) /\
+  (exists t e pp, In t ex_cols /\ In e ex_eqs /\ get_transform A ex_plan e t = Some pp).
+Proof.
+  unfold ex_cols, ex_eqs.
+  split; [cbn; repeat split; fin|].
+  split.
+  { intros e He. unfold eqn_ok, wf_eqn. in_cases; subst; cbn; repeat split; try intros ? ?; try intro; fin. }
+  split.
+  { intros t e e' r s Ht He He' Htok Hw. in_cases; subst; cbn in Htok, Hw; fin. }
+  split.
+  { cbn. repeat split; intros; in_cases; subst; cbn in *; fin. }
+  split.
+  { intros t e r s Ht He Htok Hw. in_cases; subst; cbn in Htok, Hw; fin. }
+  split.
+  { cbn. repeat split; intros; in_cases; subst; cbn in *; try intro; fin. }
+  split.
+  { intros d t e Ht He Hm. in_cases; subst; cbn; exact I. }
+  exists 1%Z. eexists. eexists. split; [right; now left|]. split; [now left|]. reflexivity.
 Qed.
 
 End Real.
